@@ -333,6 +333,24 @@ func init() {
 		return TimeV{fr.ctx().Var(fr.i.eng.FreshName("wallclock"), smt.SInt)}
 	})
 	reg("(time.Duration).String", func(fr *frame, a []value) value { return "<duration>" })
+	durFloat := func(unit int64) stubFn {
+		return func(fr *frame, a []value) value {
+			if b, ok := bigOfInt(a[0]); ok {
+				f, _ := new(big.Rat).SetFrac(b, big.NewInt(unit)).Float64()
+				return f
+			}
+			c := fr.ctx()
+			return SymFloat{c.Mul(c.Real(big.NewRat(1, unit)), c.ToReal(fr.i.termOfInt(a[0])))}
+		}
+	}
+	reg("(time.Duration).Seconds", durFloat(1000000000))
+	reg("(time.Duration).Minutes", durFloat(60*1000000000))
+	reg("(time.Duration).Hours", durFloat(3600*1000000000))
+	reg("(time.Duration).Milliseconds", func(fr *frame, a []value) value {
+		c := fr.ctx()
+		return mkIntT(types.Int64, c.TDiv(fr.i.termOfInt(a[0]), c.Int64(1000000)))
+	})
+	reg("(time.Duration).Nanoseconds", func(fr *frame, a []value) value { return mkIntT(types.Int64, fr.i.termOfInt(a[0])) })
 
 	// ---- sdk time bytes ----
 	reg(sdkTypes+".FormatTimeBytes", func(fr *frame, a []value) value {
